@@ -63,9 +63,18 @@ def misplaced_anchor(case, reason):
     return False
 
 
+EMPTY_CLASSES = ['[^\\s\\S]', '[^\\S\\s]', '[^\\d\\D]', '[^\\D\\d]', '[^\\w\\W]', '[^\\W\\w]', '[^\\x00-\\x{10FFFF}]']
+
+
+def empty_class(case, reason):
+    """F18e: the pattern holds a character class that matches nothing ([^\\s\\S] ...): it compiles, no string matches it"""
+    sp = spec_split(unhx(case.line.split(' ')[1]))
+    return isinstance(sp, bytes) and any(c.encode() in sp for c in EMPTY_CLASSES)
+
+
 class Prop:
     id = 'C18'
-    known_matchers = {'misplaced_anchor': misplaced_anchor}
+    known_matchers = {'misplaced_anchor': misplaced_anchor, 'empty_class': empty_class}
     level = 'proof'
     theorems_file = 'Properties/C18.v'
     exhaustive_note = ''
@@ -87,6 +96,10 @@ class Prop:
                  '\\x41', '<', '&', '"', "'", '\\"', '\t', '\U0001F600', '[\\]\\/]', '(?i)z', '^', '$', '\\w+@\\w+',
                  # percent signs: the pattern travels through text templates on its way into a referring schema
                  '%', '%s', '%d', '%%', '%[0-9A-F]{2}', '\\d{1,3}%']
+        # character classes that match nothing: the expression compiles, the example generator has nothing to choose from
+        for ec in EMPTY_CLASSES:
+            for pre, post in [('', ''), ('a', ''), ('', 'x'), ('(', ')?'), ('a|', ''), ('', '*'), ('[a-z]+', '{2}')]:
+                cs.append(Case('regex ' + hx(('/' + pre + ec + post + '/').encode()), 'class-that-matches-nothing'))
         nrand = 2000 if tier == 'quick' else 40000
         for _ in range(nrand):
             p = ''.join(rng.choice(atoms) for _ in range(rng.randint(0, 6)))
